@@ -3,7 +3,7 @@ from .. import brokermachine as bm
 from ..core import bfs
 
 FEES_QUICK = [('zero',), ('pct', '0.0015', '0.005')]
-FEES_THOROUGH = FEES_QUICK + [('pct', '0.001', '0'), ('pct', '0', '1'), ('pct', '1', '0')]
+FEES_THOROUGH = FEES_QUICK + [('pct', '0.001', '0'), ('pct', '0', '1'), ('pct', '1', '0'), ('pct', '0.00004', '0')]
 
 FUNDED = (('acct_sub', '5000'), ('create', '1'), ('create', '2'),
           ('pf_sub', '1', '2000'), ('pf_sub', '2', '2000'))
@@ -48,8 +48,11 @@ def run(tier, res, is_known):
         'fills are taken as recorded by Portfolio.transact_asset (price side and commission are C05)',
         'values outside the alphabet are represented by generic (non-cancelling) decimals only',
     ]
-    for fee in fees:
-        for i, init in enumerate(INITIALS):
+    plan = [(fee, i) for fee in fees for i in range(len(INITIALS))]
+    if tier == 'quick':
+        plan.append((('pct', '0.00004', '0'), 3))      # commissions below half a cent (short / negative-cash state)
+    for fee, i in plan:
+        for init in [INITIALS[i]]:
             spec = bm.BrokerSpec('C01', fee, [init], alphabet, df_check=True)
             bfs(spec, depth, res, is_known, label='fee=%s init=%d' % ('/'.join(fee), i))
             if any(not is_known(v) for v in res.violations):
